@@ -201,6 +201,12 @@ def _progs():
     P["chain each-each h"] = ("h''m", lambda v, w, n: [x_each(MO["h"], r) for r in (v, w)], lambda v, w, n: len(v) == len(w) and len(v) > 0)
     P["chain eachpair-each -"] = ("-:''m", lambda v, w, n: [x_each_pair(DY["-"], r) for r in (v, w)], lambda v, w, n: len(v) == len(w) and len(v) > 1)
     P["chain join-over-converge"] = (",/:~deep", lambda v, w, n: [n] + v + [n, n], lambda v, w, n: len(v) > 0)
+    # three adverbs: every stage after the first keeps its OWN adverb
+    P["chain3 join-over-converge-each"] = (",/:~'dd", lambda v, w, n: [[n] + v + [n, n], [n, n]], lambda v, w, n: len(v) > 0)
+    P["chain3 scan-each-each -"] = ("-\\''mm", lambda v, w, n: [[x_scan(DY["-"], r) for r in (v, w)] for _ in range(2)],
+                                    lambda v, w, n: len(v) == len(w) and len(v) > 0)
+    P["chain3 over-each-converge g"] = ("g/':~m", lambda v, w, n: [x_over(DY["g"], r) for r in (v, w)],
+                                        lambda v, w, n: len(v) == len(w) and len(v) > 1)
     # a RECTANGULAR list whose cells are themselves nested lists (2x2 outer shape, ragged inside)
     P["over join on a row of a rectangular nested list"] = (",/rect@0", lambda v, w, n: [n, v, [n]], lambda v, w, n: len(v) > 0)
     P["chain join-over-converge each rectangular nested"] = ("{,/:~x}'rect", lambda v, w, n: [[n] + v + [n], [n, n]], lambda v, w, n: len(v) > 0)
@@ -229,8 +235,10 @@ def _bind(v, w, n):
     if len(v) > 0:
         K['deep'] = W.arr([n, [v, [n]], n])
         K['rect'] = W.arr([[n, [v, [n]]], [[[n]], n]])
+        K['dd'] = W.arr([[n, [v, [n]], n], [[n], [[n]]]])
     if len(v) == len(w) and len(v) > 0:
         K['m'] = W.arr([v, w])
+        K['mm'] = W.arr([[v, w], [v, w]])
 
 
 def adv(v: List[int], w: List[int], n: int) -> bool:
@@ -279,6 +287,26 @@ def adv_str(n: int, i: int) -> bool:
             got = K(",:'s"); want = [s[j] + s[j + 1] for j in range(n - 1)] if n > 1 else (s if n == 1 else s)
             if n <= 1:
                 return verdict(W.canon(got) == W.canon(s))
+        elif which == "each-pair str codes":            # the verb sees CHARACTERS (# of a character is its code, # of a string its length)
+            if n <= 1:
+                return True
+            got = K("{(#y)-#x}:'s"); want = [ord(s[j + 1]) - ord(s[j]) for j in range(n - 1)]
+        elif which == "each2 str codes":
+            if n == 0:
+                return True
+            got = K("s{(#x)+#y}'s"); want = [2 * ord(c) for c in s]
+        elif which == "each-left str codes":
+            if n == 0:
+                return True
+            got = K('0cx{(#x)-#y}:\\s'); want = [ord("x") - ord(c) for c in s]
+        elif which == "each-right str codes":
+            if n == 0:
+                return True
+            got = K('0cx{(#x)-#y}:/s'); want = [ord(c) - ord("x") for c in s]
+        elif which == "over str codes":
+            if n < 2:
+                return True
+            got = K("{:[x~0cz;y;x]}/s"); want = KGChar(s[0])         # a fold over a string hands characters to the verb
         elif which == "over join str":
             got = K(",/s"); want = s if n != 1 else KGChar(s[0])
         elif which == "each-left str":
@@ -312,7 +340,7 @@ def adv_str(n: int, i: int) -> bool:
 
 
 STR_PROGS = ["each-str identity", "each-str size", "each-pair str", "over join str", "each-left str", "each-right str", "each dict",
-             "each2 str"]
+             "each2 str", "each-pair str codes", "each2 str codes", "each-left str codes", "each-right str codes", "over str codes"]
 
 
 def bounds(tier):
